@@ -25,7 +25,8 @@ ASSUMPTIONS = [
     "control points within 1e-9 x scale of the exact dyadic restriction count as equal",
 ]
 REQUIRED_CLASSES = ["nontrivial", "nothing_inserted", "single_node", "closed", "retracted_handles",
-                    "repeated_node", "loop_piece", "deep(>=5_levels)", "lattice", "multi_piece"]
+                    "repeated_node", "loop_piece", "deep(>=5_levels)", "lattice", "multi_piece", "hook",
+                    "flatness_relative_to_piece", "tiny_scale"]
 QUICK_SHARDS = 8
 THOROUGH_SHARDS = 16
 LINE_BUDGET = 3_000_000
@@ -93,6 +94,8 @@ def body(ctx, case):
         classes.add("single_node")
     if len(nodes) > 2:
         classes.add("multi_piece")
+    if scale <= 1e-5:
+        classes.add("tiny_scale")
     try:
         _res, lines = sut.call_budget(plot_utils.subdivideCubicPath, (s_p, flat), line_budget=LINE_BUDGET)
     except BudgetExceeded:
@@ -165,7 +168,7 @@ def body(ctx, case):
 
 @st.composite
 def cases(draw):
-    scale = 10.0 ** draw(st.integers(-1, 3))
+    scale = 10.0 ** draw(st.sampled_from([-1, 0, 1, 2, 3, -1, 0, 1, 2, 3, -9, -7, -5, -3, 6]))
     lattice = draw(st.booleans())
     denom = 1 if lattice else draw(st.sampled_from([4, 64, 1 << 20]))
     tags = {"lattice"} if lattice else set()
@@ -201,7 +204,29 @@ def cases(draw):
         tags.add("closed")
         if n == 2:
             tags.add("loop_piece")
+    if n >= 2 and draw(st.integers(0, 5)) == 0:
+        # a tight hook: both inner handles of one piece sit together just past the far end of its chord
+        k = draw(st.integers(0, n - 2))
+        far = nodes[k + 1][1]
+        off = [coord() / draw(st.sampled_from([4, 8, 16])), coord() / draw(st.sampled_from([4, 8, 16]))]
+        tip = [far[0] + off[0], far[1] + off[1]]
+        nodes[k][2] = list(tip)
+        nodes[k + 1][0] = list(tip) if draw(st.booleans()) else [tip[0] + off[1] / 8, tip[1] - off[0] / 8]
+        tags.add("hook")
     flat = scale * 10.0 ** (draw(st.integers(-16, 0)) / 4)
+    if n >= 2 and draw(st.booleans()):
+        # flatness as a fraction of how far some piece's control points actually are from its chord, so that the
+        # accept/split decision of the first levels is close (0.26 .. 1.2 of that distance)
+        k = draw(st.integers(0, n - 2))
+        a, b = nodes[k][1], nodes[k + 1][1]
+        dist = 0.0
+        for c in (nodes[k][2], nodes[k + 1][0]):
+            dist = max(dist, math.sqrt(float(geom.sqdist_point_segment(geom.pt(c), geom.pt(a), geom.pt(b)))))
+        frac = draw(st.sampled_from([0.26, 0.3, 0.4, 0.49, 0.51, 0.55, 0.6, 0.65, 0.7, 0.74, 0.76, 0.9, 0.99, 1.01,
+                                     1.2, 0.13, 0.06]))
+        if dist * frac >= scale * 1e-4:
+            flat = dist * frac
+            tags.add("flatness_relative_to_piece")
     return {"nodes": nodes, "flat": flat, "scale": scale, "tags": sorted(tags)}
 
 
